@@ -284,7 +284,14 @@ func Run(c *core.Ctx, pool *gjs.Pool) {
 func decide(c *core.Ctx, pool *gjs.Pool, p *Params) {
 	curIdent = &p.Ident
 	pj, _ := json.Marshal(p)
-	r, err := tlcx.Run(c, tlcx.Opts{Module: "TypesScen", Cfg: tlcCfg, Workers: 8, Timeout: 40 * time.Minute,
+	tw := c.Workers / 2 // at most 8 TLC workers; fewer when VERIF_WORKERS asks for a lighter run
+	if tw > 8 {
+		tw = 8
+	}
+	if tw < 1 {
+		tw = 1
+	}
+	r, err := tlcx.Run(c, tlcx.Opts{Module: "TypesScen", Cfg: tlcCfg, Workers: tw, Timeout: 40 * time.Minute,
 		Files: map[string]string{"c09_params.json": string(pj)}, HeapMB: 8192})
 	if !tlcx.MustComplete(c, r, err, "TypesScen") {
 		return
@@ -421,7 +428,7 @@ func decide(c *core.Ctx, pool *gjs.Pool, p *Params) {
 			return
 		}
 		if res.Native.End == "timeout" || res.JS.End == "timeout" {
-			c.Infra(fmt.Errorf("a batch program did not finish within 5 minutes (native end=%s, node end=%s; overloaded machine?)", res.Native.End, res.JS.End))
+			c.Infra(fmt.Errorf("a batch program did not finish within 5 minutes in three attempts (native end=%s, node end=%s; overloaded machine?)", res.Native.End, res.JS.End))
 			return
 		}
 		if res.NativeErr != "" {
@@ -494,7 +501,8 @@ func decide(c *core.Ctx, pool *gjs.Pool, p *Params) {
 // runBoth is gjs.Pool.RunBoth with one difference: a native build that hits the
 // fixed 5-minute limit of gjs.NativeBuild (seen on an overloaded machine: the
 // batch programs have tens of thousands of lines) is retried, and reported as
-// a timeout - not as a rejection of the program - when it never finishes.
+// a timeout - not as a rejection of the program - when it never finishes; runs
+// of the (never blocking) programs that exceed the limit are retried as well.
 func runBoth(c *core.Ctx, pool *gjs.Pool, p gjs.Prog, timeout time.Duration) (b gjs.Both, nativeTimeout bool) {
 	dir, err := p.Materialise(c.Scratch)
 	if err != nil {
@@ -508,7 +516,15 @@ func runBoth(c *core.Ctx, pool *gjs.Pool, p gjs.Prog, timeout time.Duration) (b 
 		b.BuildErr = err
 		return b, false
 	}
-	b.JS = gjs.ClassifyNode(gjs.Node(out, timeout, "", nil))
+	for attempt := 0; ; attempt++ {
+		r := gjs.Node(out, timeout, "", nil)
+		if r.TimedOut && attempt < 2 { // the programs never block: a run that exceeds the limit was starved
+			c.Add("node_run_retries", 1)
+			continue
+		}
+		b.JS = gjs.ClassifyNode(r)
+		break
+	}
 	bin := filepath.Join(dir, "native.bin")
 	for attempt := 0; ; attempt++ {
 		r := gjs.NativeBuild(dir, bin)
@@ -528,7 +544,15 @@ func runBoth(c *core.Ctx, pool *gjs.Pool, p gjs.Prog, timeout time.Duration) (b 
 		}
 		break
 	}
-	b.Native = gjs.ClassifyNative(gjs.NativeRun(bin, timeout, nil))
+	for attempt := 0; ; attempt++ {
+		r := gjs.NativeRun(bin, timeout, nil)
+		if r.TimedOut && attempt < 2 {
+			c.Add("native_run_retries", 1)
+			continue
+		}
+		b.Native = gjs.ClassifyNative(r)
+		break
+	}
 	return b, false
 }
 
